@@ -55,6 +55,11 @@ FAMILY = [
     "c = 1\nx = 0\nwhile c == 1:\n    c = Bernoulli(1/2)\n    x = x + c\nend\n",
     "c = 1\nx = 1\nwhile c == 1:\n    x = 3/2*x\n    c = Bernoulli(1/2)\nend\n",
 ]
+FAMILY_GOALS = [
+    ("k = Bernoulli(1/2)\nc = 2*k\ny = 0\nwhile c < 2:\n    if c == 0:\n        c = 1 {1/4} 2 {1/4} 0\n    end\n    y = y + 1\nend\n", ["k", "k**2", "y", "k*y"]),
+    ("k = DiscreteUniform(0, 2)\nc = 1\nx = 0\nwhile c == 1:\n    c = Bernoulli(1/2)\n    x = x + k\nend\n", ["k", "k*x", "x", "k**2"]),
+    ("k = Bernoulli(1/3)\nc = k\nx = 5\nwhile c == 0:\n    c = Bernoulli(1/2)\n    x = x + 1\nend\n", ["k", "x", "k*x"]),
+]
 DIVERGE = [
     ("c = 1\nx = 1\nwhile c == 1:\n    x = 2*x\n    c = Bernoulli(1/2)\nend\n", "x", True),
     ("c = 1\nx = 1\nwhile c == 1:\n    x = 3*x\n    c = Bernoulli(1/2)\nend\n", "x", True),
@@ -85,6 +90,8 @@ def cases(tier, seed):
     sel = FAMILY + [t for t in progs[len(FAMILY):]][::step]
     for text in sel:
         goals = gen.goals_for(text, 2, 4 if tier == "quick" else 6)
+        out.append({"input": {"kind": "program", "text": text, "goals": goals}, "N": 5})
+    for text, goals in FAMILY_GOALS:
         out.append({"input": {"kind": "program", "text": text, "goals": goals}, "N": 5})
     for text, goal, div in DIVERGE:
         out.append({"input": {"kind": "diverge", "text": text, "goal": goal, "diverges": div}})
